@@ -63,7 +63,7 @@ pub const C15: Check = Check {
     level: "exploration",
     rule: "one writer thread runs the real server update step (Server::process_once via hook wrapper) installing \
            versions that each carry a unique marker item, with seeded delays injected at the four hook points between \
-           the update steps; 6 reader threads concurrently issue RTR reset and serial queries (real rtr_listener, \
+           the update steps and random jitter before every acquisition of the history lock; 6 reader threads concurrently issue RTR reset and serial queries (real rtr_listener, \
            rpki's RTR client, protocol v2), GET /json, /csv, /json-delta reset and delta (real http_listener). Every \
            response is recorded {op, call, return, session, serial/ETag, items}. Oracle: (a) a full set tagged serial S \
            equals version S exactly, a delta A->S turns version A into version S, ETag serial equals body version; \
@@ -215,6 +215,11 @@ fn run_c15(ctx: &mut Ctx, rep: &mut Report) {
         }));
     }
 
+    // Jitter before every acquisition of the history lock: widens the gap between any two separate critical
+    // sections of one query (a query that reads serial and data under two acquisitions becomes observable).
+    hooks.seed_jitter(ctx.seed ^ (ctx.shard as u64) << 32);
+    hooks.set_action("history.read", Some(HookAction::Jitter(ctx.tier.pick(400, 1500))));
+    hooks.set_action("history.write", Some(HookAction::Jitter(200)));
     // Writer (this thread): install versions with delays at the hook points.
     let points = ["server.before_update", "server.after_update", "server.after_done", "server.before_notify"];
     for k in 0..n_versions {
@@ -231,6 +236,9 @@ fn run_c15(ctx: &mut Ctx, rep: &mut Report) {
     stop.store(true, Ordering::SeqCst);
     for r in readers { let _ = r.join(); }
     for p in points.iter() { hooks.set_action(p, None); }
+    hooks.set_action("history.read", None);
+    hooks.set_action("history.write", None);
+    rep.count("history_lock_acquisitions_jittered", hooks.count("history.read") + hooks.count("history.write"));
     let installed_n = *installed.lock().unwrap();
 
     // Build currency intervals from hook events.
